@@ -15,7 +15,12 @@ func readMessage(b *pageBuffer, d *decoder) (attributes int8, baseOffset, timest
 	}
 
 	baseOffset = md.readInt64()
-	md.remain = int(md.readInt32())
+	if size := md.readInt32(); size < 0 {
+		err = Errorf("invalid negative message size: %d", size)
+		return
+	} else {
+		md.remain = int(size)
+	}
 
 	crc := uint32(md.readInt32())
 	md.setCRC(crc32.IEEETable)
